@@ -219,7 +219,7 @@ def dispatcher_routing(perm: int, n: int, c0: int, c1: int, c2: int, c3: int, ws
 
 # ------------------------------------------------------------------ HTTPS redirect
 
-_RAW = [b"/", b"/a", b"/a%3C", b"/a/b;c=1", b"/a%20b/", b"/%E9"]
+_RAW = [b"/", b"/a", b"/a%3C", b"/a/b;c=1", b"/a%20b/", b"/%E9", b"/r", b"/r/s/t", b"/rx", b"/r/r/s"]  # the last four begin with one of the root paths
 _QS = [b"", b"a=1", b"a=%20&b", b"x=%3F%23"]
 _ROOT = ["", "/r", "/r/s"]
 _HOSTS = [None, b"example.com", b"example.com:8080", b"[::1]:80"]
@@ -231,7 +231,7 @@ _HOSTS = [None, b"example.com", b"example.com:8080", b"[::1]:80"]
     split={"kind": "each", "hi": "each"},
     witnesses=[{"kind": 0, "ri": 2, "qi": 2, "roi": 1, "hi": 1, "cfg": False, "ext": True}],
     budget=60,
-    bounds="scope kinds {http/http, http/https, ws/ws, ws/wss, ws over HTTP/2} x 6 raw paths x 4 query strings x 3 root_paths x 4 Host values x host configured or taken from the header x denial-response extension present or not",
+    bounds="scope kinds {http/http, http/https, ws/ws, ws/wss, ws over HTTP/2} x 10 raw paths (four of them beginning with the text of a root_path) x 4 query strings x 3 root_paths x 4 Host values x host configured or taken from the header x denial-response extension present or not",
     encodes=["hypercorn/middleware/http_to_https.py::HTTPToHTTPSRedirectMiddleware.__call__", "hypercorn/middleware/http_to_https.py::HTTPToHTTPSRedirectMiddleware._new_url"],
 )
 def https_redirect(kind: int, ri: int, qi: int, roi: int, hi: int, cfg: bool, ext: bool) -> bool:
